@@ -177,6 +177,15 @@ def variations(secs):
                 V.append(('drop:line_endings@%d' % i,
                           _mk_drop(i, 'line_endings')))
         if s.ckey == 'text':
+            ind = int(dict(s.opts).get('indent', 0) or 0)
+            if ind >= 2 and s.kind is not None:
+                # a producer that indents some lines less than declared
+                # (textwrap.indent leaves blank lines alone; a hand-edited
+                # line): "up to indent spaces are removed"
+                for li in (0, -1):
+                    for k in sorted(set((1, ind - 1, ind))):
+                        V.append(('partial-indent:%d:%d@%d' % (li, k, i),
+                                  _mk_partial_indent(i, li, k, ind)))
             if dict(s.opts).get('indent') == '0':
                 V.append(('drop:indent@%d' % i, _mk_drop(i, 'indent')))
             if any(o[0] == 'mimetype' for o in s.opts):
@@ -265,6 +274,21 @@ def _mk_add(i, key, value):
         if any(o[0] == key for o in s.opts):
             return
         s.opts = sorted(s.opts + [[key, value]], key=lambda o: o[0])
+    return f
+
+
+def _mk_partial_indent(i, li, k, ind):
+    def f(secs):
+        s = secs[i]
+        sig = spec.signature(s.eff) if s.eff else b''
+        r = spec.split_indented(s.body, spec.nl(s.kind, s.eff),
+                                spec.unit_size(s.eff), ind, sig)
+        raw, stripped = list(r[0]), r[1]
+        if not raw or not raw[li].startswith(b' ' * ind) or \
+                stripped[li][:1] == b' ':
+            return          # (nothing to vary on this line)
+        raw[li] = raw[li][k:]
+        s.body = b''.join(raw)
     return f
 
 
